@@ -38,12 +38,23 @@ Why(r) ==
             ELSE "own-severity"
     ELSE r.k
 
+\* the written file: which category parts it holds
+FilePresence(r) ==
+    IF Mode = "C12" THEN ~r.garbage /\ (\A c \in Cats : r.present[c] = r.nonempty[c])
+    \* C11 at the written file: no category's entries may be missing altogether
+    ELSE IF Mode = "C11" THEN ~r.garbage /\ (\A c \in Cats : r.nonempty[c] => r.present[c])
+    ELSE TRUE
+\* where the record says how many findings the analysed files have (measured file by file), how many entries and which
+\* total each part of the written report shows: all three agree
+FileCounts(r) ==
+    IF "expected" \in DOMAIN r
+    THEN \A c \in Cats : (r.entries[c] = r.expected[c]) /\ ((r.present[c] /\ c # "qa") => (r.total[c] = r.entries[c]))
+    ELSE TRUE
+
 Accept(r) ==
     CASE r.k = "render" -> AcceptRender(r)
       [] r.k = "same"   -> (Mode = "C13") => (r.bytes_equal /\ r.a = r.b)
-      [] r.k = "file"   -> /\ (Mode = "C12") => (~r.garbage /\ \A c \in Cats : r.present[c] = r.nonempty[c])
-                           \* C11 at the written file: no category's entries may be missing altogether
-                           /\ (Mode = "C11") => (~r.garbage /\ \A c \in Cats : r.nonempty[c] => r.present[c])
+      [] r.k = "file"   -> FilePresence(r) /\ FileCounts(r)
       [] OTHER          -> FALSE
 
 Init == l = 1 /\ bad = <<>>
